@@ -42,6 +42,7 @@ package filter
 // Add sets all k probes of the item and only ever turns bits on (sequential semantics of the CAS loop).
 //@ func BloomFilter.Add
 //@   mode bv
+//@   timeout 90
 //@   opt uf-mod
 //@   requires bf != nil && len(bf.bits) > 0
 //@   requires addressable: len(bf.bits) < 144115188075855872
